@@ -1,6 +1,7 @@
 """C09 -- cell division yields two valid daughters or leaves the mother untouched.
 Design: TLC on spec/Tissue (DivisionReplaces, OnlyReadyDivide, IdsUnique, IdsFresh: population protocol of cell_divider::run for every
-set of cells dividing in one iteration).  Implementation: (a) real cell_divider::divide_cell on generated mothers (spheres, stretched
+set of cells dividing in one iteration) and on spec/Mesh/MeshCut (topology of the cut: for every mother of the family and every way a
+plane separates its nodes, the two capped halves are closed oriented manifolds exactly when both sides of the plane are connected).  Implementation: (a) real cell_divider::divide_cell on generated mothers (spheres, stretched
 spheres, boxes; symmetric -- the plane passes through nodes -- and jittered; every coordinate axis in both directions, diagonal and
 generic axes; several l_min / size ratios; with unused slots before the call); TLC (DivideTrace) evaluates every C01 predicate of
 spec/Mesh on both daughters and the 'mother untouched' facts on every record; (b) real solver runs in which several cells divide in
@@ -61,6 +62,13 @@ def run(tier, seed, replay=None):
             chk.violation("design:" + ",".join(res.violated), "TLC: spec/Tissue violates " + ",".join(res.violated) + "\n" + res.out[-2500:])
             return chk.finish()
         vlib.tlc_expect_ok(res, "Tissue")
+        # topology of the cut (spec/Mesh/MeshCut): every mother of the family, every way a plane separates its nodes
+        res = vlib.tlc(SPEC, "MeshCutMC", "MeshCut.cfg", timeout=3000, xmx="8g")
+        chk.add_tlc("Mesh/MeshCut.cfg", res)
+        if res.is_violation:
+            chk.violation("design:" + ",".join(res.violated), "TLC: spec/Mesh/MeshCut violates " + ",".join(res.violated) + "\n" + res.out[-2500:])
+            return chk.finish()
+        vlib.tlc_expect_ok(res, "MeshCut")
         cs = cases(tier, seed)
         far = 3.0 * tc.R
         scns = [tc.scenario("multi", [tc.cell(i, i * far, level=2) for i in range(4)], [{"iter": 5, "do": "ready", "cell": c} for c in (0, 2, 3)], T_ns=1200, threads=8),
